@@ -211,7 +211,7 @@ PROPS["C06"] = dict(
                "with an injective substitution (decide over the regenerated table). Collision resistance of SHA-256 is not claimed. Whole-build naming "
                "(affixes + suffix, references following it) is decided by the oracle with an independently written hash.",
     level_note=COMMON_NOTE + "SHA-256 and Go JSON escaping are parameters of the theorems; the driver's own implementations are validated against hasher.Hash on every case.",
-    assumptions=["binaryData / stringData / file and env sources are covered by the oracle only", "the name slot of the hash input is always empty (observed and modelled)"],
+    assumptions=["env / literal / file sources are modelled (Kust.Kv, gen.sources); binaryData vs data placement of non-UTF-8 content is covered by the oracle only", "the name slot of the hash input is always empty (observed and modelled)"],
     design_ref="DESIGN.md §5 C06",
 )
 
